@@ -19,6 +19,7 @@ import (
 	"runtime"
 	"strconv"
 	"sync"
+	"sync/atomic"
 	"time"
 
 	"github.com/PelicanPlatform/classad/classad"
@@ -30,12 +31,26 @@ import (
 	"github.com/bbockelm/cedar/stream"
 )
 
+// progress counts completed operations across all workers of the running scenario.
+// A deadlock is reported only when it has not advanced for a long window; a scenario
+// that is merely slow (loaded machine, race detector, GOMAXPROCS=1) runs on, and if it
+// exceeds the generous overall cap the run is INCONCLUSIVE, never a violation.
+var progress int64
+
+func tick() { atomic.AddInt64(&progress, 1) }
+
+const (
+	stallWindow = 60 * time.Second // zero progress for this long = deadlock
+	overallCap  = 12 * time.Minute
+)
+
 type result struct {
-	Scenario string   `json:"scenario"`
-	PostOK   bool     `json:"post_ok"`
-	Problems []string `json:"problems,omitempty"`
-	Ops      int      `json:"ops"`
-	Procs    int      `json:"gomaxprocs"`
+	Inconclusive string   `json:"inconclusive,omitempty"`
+	Scenario     string   `json:"scenario"`
+	PostOK       bool     `json:"post_ok"`
+	Problems     []string `json:"problems,omitempty"`
+	Ops          int      `json:"ops"`
+	Procs        int      `json:"gomaxprocs"`
 }
 
 func main() {
@@ -86,11 +101,30 @@ func main() {
 		}
 		close(done)
 	}()
-	select {
-	case <-done:
-	case <-time.After(60 * time.Second):
-		fail("scenario did not finish within 60 s (deadlock?)")
+	begin := time.Now()
+	last, lastChange := atomic.LoadInt64(&progress), time.Now()
+	tk := time.NewTicker(500 * time.Millisecond)
+watch:
+	for {
+		select {
+		case <-done:
+			break watch
+		case <-tk.C:
+			if p := atomic.LoadInt64(&progress); p != last {
+				last, lastChange = p, time.Now()
+			} else if time.Since(lastChange) > stallWindow {
+				fail("no operation completed for %s after %d completed operations (deadlock?)", stallWindow, p)
+				break watch
+			}
+			if time.Since(begin) > overallCap {
+				rmu.Lock()
+				r.Inconclusive = fmt.Sprintf("still making progress (%d operations) after %s: machine too loaded, rerun with fewer iterations", last, overallCap)
+				rmu.Unlock()
+				break watch
+			}
+		}
 	}
+	tk.Stop()
 	rmu.Lock()
 	js, _ := json.Marshal(r)
 	rmu.Unlock()
@@ -184,6 +218,7 @@ func cacheScenario(seed int64, workers, iters int, maint bool, r *result, fail f
 					}
 				}
 				n++
+				tick()
 			}
 			mu.Lock()
 			ops += int64(n)
@@ -265,6 +300,7 @@ func atomicityScenario(seed int64, workers, iters int, r *result, fail func(stri
 				if i == 0 {
 					c.LookupNonExpired("probe-never-stored")
 				}
+				runtime.Gosched() // never starve the owners (GOMAXPROCS=1)
 			}
 		}(i)
 	}
@@ -300,6 +336,7 @@ func atomicityScenario(seed int64, workers, iters int, r *result, fail func(stri
 					c.Store(live)
 				}
 				n += 2
+				tick()
 				for k := 0; k < 20; k++ {
 					if e, ok := c.Lookup(id); !ok || e != live {
 						mu.Lock()
@@ -428,7 +465,7 @@ func clientScenario(seed int64, workers, iters int, r *result, fail func(string,
 			wg.Add(1)
 			go func() {
 				defer wg.Done()
-				cctx, cc := context.WithTimeout(ctx, 20*time.Second)
+				cctx, cc := context.WithTimeout(ctx, 10*time.Minute)
 				defer cc()
 				cl, err := client.ConnectAndAuthenticateWithConfig(cctx, &client.ClientConfig{Address: addr, Security: shared})
 				if err != nil {
@@ -443,6 +480,7 @@ func clientScenario(seed int64, workers, iters int, r *result, fail func(string,
 					fail("reply over the authenticated stream: v=%d err=%v (handshakes disturbed one another?)", v, err)
 					return
 				}
+				tick()
 				mu.Lock()
 				okCount++
 				if n := cl.GetSecurityNegotiation(); n != nil && n.SessionResumed {
@@ -513,7 +551,7 @@ func perCommandScenario(seed int64, workers, iters int, r *result, fail func(str
 			defer wg.Done()
 			<-start
 			for it := 0; it < iters; it++ {
-				cctx, cc := context.WithTimeout(ctx, 20*time.Second)
+				cctx, cc := context.WithTimeout(ctx, 10*time.Minute)
 				cl, err := client.ConnectAndAuthenticateWithConfig(cctx, &client.ClientConfig{Address: addr, Security: secCfg(security.NewSessionCache())}) // own cache: never resumes
 				if err != nil {
 					fail("fresh handshake for the per-command policy: %v", err)
@@ -525,6 +563,7 @@ func perCommandScenario(seed int64, workers, iters int, r *result, fail func(str
 				if err != nil || v != 9 || !cl.GetStream().IsEncrypted() {
 					fail("reply over the encrypted stream: v=%d err=%v encrypted=%v", v, err, cl.GetStream().IsEncrypted())
 				} else {
+					tick()
 					mu.Lock()
 					okCount++
 					if n := cl.GetSecurityNegotiation(); n != nil {
@@ -570,6 +609,9 @@ func sessionIDScenario(seed int64, workers, iters int, r *result, fail func(stri
 			for i := 0; i < iters; i++ {
 				v := security.GetNextSessionCounter()
 				vals = append(vals, v)
+				if i%1024 == 0 {
+					tick()
+				}
 				if i%64 == 0 {
 					sids = append(sids, security.GenerateSessionID(security.GetNextSessionCounter()))
 				}
@@ -628,7 +670,7 @@ func secmanScenario(seed int64, workers, iters int, r *result, fail func(string,
 				sa, sb := stream.NewStream(a), stream.NewStream(b)
 				errc := make(chan error, 1)
 				go func() { errc <- sm.ServerHandshake(context.Background(), sb) }()
-				ctx, cancel := context.WithTimeout(context.Background(), 20*time.Second)
+				ctx, cancel := context.WithTimeout(context.Background(), 10*time.Minute)
 				err := cm.ClientHandshake(ctx, sa)
 				cancel()
 				serr := <-errc
@@ -638,6 +680,7 @@ func secmanScenario(seed int64, workers, iters int, r *result, fail func(string,
 					fail("SecurityManager handshake failed: client=%v server=%v", err, serr)
 					return
 				}
+				tick()
 				mu.Lock()
 				n++
 				mu.Unlock()
@@ -678,6 +721,7 @@ func duplexScenario(seed int64, workers, iters int, r *result, fail func(string,
 					fail("%s send %d: %v", tag, i, err)
 					return
 				}
+				tick()
 				if i%5 == 0 {
 					runtime.Gosched()
 				}
@@ -697,6 +741,7 @@ func duplexScenario(seed int64, workers, iters int, r *result, fail func(string,
 					fail("%s recv %d: payload differs (err=%v)", tag, i, err)
 					return
 				}
+				tick()
 			}
 		}()
 		wg.Wait()
@@ -716,7 +761,7 @@ func duplexScenario(seed int64, workers, iters int, r *result, fail func(string,
 		wg.Add(1)
 		go func() {
 			defer wg.Done()
-			cctx, cc := context.WithTimeout(ctx, 40*time.Second)
+			cctx, cc := context.WithTimeout(ctx, 10*time.Minute)
 			defer cc()
 			cl, err := client.ConnectAndAuthenticateWithConfig(cctx, &client.ClientConfig{Address: l.Addr().String(), Security: secCfg(security.NewSessionCache())})
 			if err != nil {
@@ -734,7 +779,7 @@ func duplexScenario(seed int64, workers, iters int, r *result, fail func(string,
 	for w := 0; w < workers; w++ {
 		select {
 		case <-handled:
-		case <-time.After(20 * time.Second):
+		case <-time.After(10 * time.Minute): // the progress watchdog in main reports a real deadlock much earlier
 			fail("a server-side handler did not finish")
 			w = workers
 		}
